@@ -418,6 +418,14 @@ def run(repo, chk):
     cparam = cfn.args.args[0].arg if cfn.args.args else None
     key_stores = [n for n in walk(cfn) if isinstance(n, ast.Assign) and isinstance(n.targets[0], ast.Attribute) and dotted(n.targets[0].value) == "self"
                   and unparse(n.value) in ("%s.points" % cparam, "list(%s.points)" % cparam, "tuple(%s.points)" % cparam, "copy.deepcopy(%s.points)" % cparam)]
+    # the stored key must be a COPY when Curve.points hands out its live list (else the staleness test compares the list with itself)
+    cpg = repo.func(ELEM, "Curve.points", kind="getter")
+    live = any(isinstance(r, ast.Return) and unparse(r.value) == "self._points" for r in walk(cpg))
+    if key_stores:
+        alias = unparse(key_stores[0].value) == "%s.points" % cparam
+        chk.expect(not (alias and live), "R-C02-5", "the points stored with the memoised fit are a copy, not the curve's live list", loc(gfn, key_stores[0]),
+                   "Curve.points returns the internal list: after an in-place edit (curve.points[0] = ..., .append) the stored key IS the edited list, the comparison is always equal and "
+                   "the pump keeps the coefficients of the old curve", expected="list(curve.points)", found=norm(key_stores[0]))
     guards = [n for n in gfn.body if isinstance(n, ast.If) and any(call_name(c) == cfn.name for c in calls(ast.Module(body=n.body, type_ignores=[])))]
     okc = False
     why = "no guarded call of %s" % cfn.name
@@ -445,9 +453,9 @@ def run(repo, chk):
     # ---------------------------------------------------------------- R-C02-6 valves
     valve_ref = {
         ("prv_headloss_constraint", "Active"): [HE - cs("valve_setting") - cs("elev_end")],
-        ("prv_headloss_constraint", "Open"): [Km * Q ** 2 - HS + HE],
+        ("prv_headloss_constraint", "Open"): [-Km * Q ** 2 - HS + HE, Km * Q ** 2 - HS + HE],
         ("psv_headloss_constraint", "Active"): [HS - cs("valve_setting") - cs("elev_start")],
-        ("psv_headloss_constraint", "Open"): [Km * Q ** 2 - HS + HE],
+        ("psv_headloss_constraint", "Open"): [-Km * Q ** 2 - HS + HE, Km * Q ** 2 - HS + HE],
         ("fcv_headloss_constraint", "Active"): [Q - cs("valve_setting")],
         ("fcv_headloss_constraint", "Open"): [-Km * Q ** 2 - HS + HE, Km * Q ** 2 - HS + HE],
         ("tcv_headloss_constraint", "Active"): [-cs("tcv_resistance") * Q ** 2 - HS + HE, cs("tcv_resistance") * Q ** 2 - HS + HE],
@@ -467,6 +475,11 @@ def run(repo, chk):
             okv = len(got) == len(ref) and all(is_zero(g - r) for g, r in zip(got, ref))
             chk.expect(okv, "R-C02-6", "%s %s [%s%s]: documented valve relation" % (bname, stat, "J" if sj else "S", "J" if ej else "S"), loc(fn),
                        expected=[str(r) for r in ref], found=[str(g) for g in got])
+            if stat == "Open" or bname == "tcv_headloss_constraint":
+                # a loss coefficient takes head in the direction of flow: the relation must be odd in q (two branches switching at q <= 0)
+                chk.expect(len(brs) == 2, "R-C02-6", "%s %s [%s%s]: the minor-loss relation has a branch for reverse flow" % (bname, stat, "J" if sj else "S", "J" if ej else "S"), loc(fn),
+                           "K*q^2 - Hs + He alone is even in q: for q < 0 the valve ADDS K*q^2 of head in the flow direction (PRV/PSV with fixed status OPEN: Hs - He = +77 m "
+                           "instead of -77 m)", expected="two branches", found="%d branch(es)" % len(brs))
             if len(brs) == 2:
                 g = brs[0][0]
                 okg = isinstance(g, Ineq) and canon(g.body)[0] == Q and g.lb is None and S(ex, g.ub) == 0
@@ -513,8 +526,10 @@ def run(repo, chk):
         cc = class_consts(CTRL, cname)
         attrs = dict(cc)
         hs, he = (0.0, -dh) if dh is not None else (0.0, dh_end_minus_start)
+        istat = (extra or {}).get("internal", "Open")
         attrs.update({"_start_node": Obj("start", {"head": hs}), "_end_node": Obj("end", {"head": he}), "_cv": Obj("cv", {"flow": flow}),
-                      "_pump": Obj("pump", {"flow": flow}), "_wn": Obj("wn", {"sim_time": 0})})
+                      "_pump": Obj("pump", {"flow": flow, "_flow": flow, "_internal_status": Obj("LinkStatus." + istat), "status": Obj("LinkStatus." + istat)}),
+                      "_wn": Obj("wn", {"sim_time": 0})})
         if extra:
             attrs.update(extra)
 
@@ -524,7 +539,12 @@ def run(repo, chk):
             if name.endswith("speed_timeseries.at"):
                 return 1.0
             return NotImplemented
-        ev = Evaluator({"self": Obj("self", attrs)}, None, call_hook)
+        def class_attr_(d):
+            parts = d.split(".")
+            if len(parts) == 2 and parts[0] == "LinkStatus":
+                return Obj("LinkStatus." + ("Open" if parts[1] == "Opened" else parts[1]))
+            raise Unknown(d)
+        ev = Evaluator({"self": Obj("self", attrs)}, class_attr_, call_hook)
         ev.env["abs"] = None
         ev.env.pop("abs")
         return ev.run(fn.body), fn, cc
@@ -546,20 +566,37 @@ def run(repo, chk):
                            "a CV pipe must close whenever flow < -Qtol or Hs - He < -Htol", expected=True, found=close)
                 chk.expect(opn is False, "R-C02-8", "check valve does not re-open while reverse conditions hold [%s]" % region, loc(f2), expected=False, found=opn)
             chk.expect(not (close is True and opn is True), "R-C02-8", "close and open conditions are never both true [%s]" % region, loc(f2))
-    # head pump shut-off: closes iff He - Hs > A + Htol
+    # pumps: closed above the shut-off head AND whenever they carry reverse flow; never both conditions true; able to re-open below the shut-off head
     Aval = 50.0
-    for d in (Aval - 1.0, Aval, Aval + 1e-5, Aval + 1.0):
-        close, f1, cc1 = eval_cond("_CloseHeadPumpCondition", dh_end_minus_start=d, extra={"A": Aval})
-        opn, f2, _ = eval_cond("_OpenHeadPumpCondition", dh_end_minus_start=d, extra={"A": Aval})
-        ht = cc1.get("_Htol", 0)
-        chk.expect(close is (d > Aval + ht), "R-C02-8", "head pump closes iff He - Hs exceeds the shut-off head A (+Htol) [dh-A=%+.3g]" % (d - Aval), loc(f1), found=close)
-        chk.expect(opn is (not close), "R-C02-8", "head pump open condition is the complement of the close condition [dh-A=%+.3g]" % (d - Aval), loc(f2), found=opn)
+    for pclose, popen, hmax_of in (("_CloseHeadPumpCondition", "_OpenHeadPumpCondition", lambda cc_: Aval), ("_ClosePowerPumpCondition", "_OpenPowerPumpCondition", lambda cc_: cc_.get("Hmax"))):
+        _, f1, cc1 = eval_cond(pclose, dh_end_minus_start=0.0, extra={"A": Aval})
+        hmax = hmax_of(cc1)
+        ht = cc1.get("_Htol", cc1.get("Htol", 0))
+        qt = cc1.get("Qtol", Qt)
+        dvals = [hmax - 1.0, hmax + 1.0] if hmax < 1e9 else [0.0, 10.0]
+        for d, q, ist in itertools.product(dvals, (-1.0, -2 * qt, 0.0, 1.0), ("Open", "Closed")):
+            close, f1, _ = eval_cond(pclose, dh_end_minus_start=d, flow=q, extra={"A": Aval, "internal": ist})
+            opn, f2, _ = eval_cond(popen, dh_end_minus_start=d, flow=q, extra={"A": Aval, "internal": ist})
+            region = "dh-Hmax=%+.3g q=%+.3g*Qtol internal=%s" % (d - hmax, q / qt, ist)
+            must_close = q < -qt or d > hmax + ht
+            if must_close:
+                chk.expect(close is True, "R-C02-8", "%s is true on reverse flow / above the shut-off head [%s]" % (pclose, region), loc(f1),
+                           "pumps never report reverse flow beyond the flow tolerance: for q < 0 the pump relation is flat at the shut-off head (head pump) or has a second root "
+                           "(power pump), so a head test alone never closes a pump that runs backwards", expected=True, found=close)
+                chk.expect(opn is False, "R-C02-8", "%s does not re-open the pump while it must be closed [%s]" % (popen, region), loc(f2), expected=False, found=opn)
+            else:
+                chk.expect(close is False, "R-C02-8", "%s leaves a forward-running pump below the shut-off head alone [%s]" % (pclose, region), loc(f1), expected=False, found=close)
+                if d < hmax - 0.5:
+                    chk.expect(opn is True, "R-C02-8", "%s re-opens a pump well below the shut-off head [%s]" % (popen, region), loc(f2), expected=True, found=opn)
+            chk.expect(not (close is True and opn is True), "R-C02-8", "%s / %s are never both true [%s]" % (pclose, popen, region), loc(f2))
     chk.fn(f1, f2)
     chk.floor("R-C02-8", 40)
 
 
 _W = lambda name, old, new, rule, **kw: dict(name=name, file=CON, old=old, new=new, rule=rule, **kw)
 WITNESSES = [
+    dict(name="head-pump-ignores-reverse-flow", file=CTRL, old="        if self._pump.flow is not None and self._pump.flow < -2.83168e-6:\n            return True\n", new="", rule="R-C02-8"),
+    dict(name="pump-memo-key-aliases-live-list", file=ELEM, old="            self._coeffs_curve_points = list(curve.points)", new="            self._coeffs_curve_points = curve.points", rule="R-C02-5"),
     dict(name="stale-pump-curve-memo", file=ELEM, old="if self._curve_coeffs is None or curve.points != self._coeffs_curve_points:", new="if self._curve_coeffs is None:", rule="R-C02-5"),
     _W("hw-drop-sign", "con = aml.Constraint(expr=-aml.sign(f)*k*aml.abs(f)**m.hw_exp", "con = aml.Constraint(expr=-k*aml.abs(f)**m.hw_exp", "R-C02-3"),
     _W("hw-swap-heads", "- aml.sign(f)*minor_k*f**m.hw_minor_exp + start_h - end_h)\n\n            m.approx", "- aml.sign(f)*minor_k*f**m.hw_minor_exp + end_h - start_h)\n\n            m.approx", "R-C02-2"),
